@@ -216,7 +216,9 @@ func mkEnvelope(kind string, seq, class int) (id string, send func(context.Conte
 		r := &lime.RequestCommand{}
 		r.ID = id
 		r.Method = lime.CommandMethodGet
-		r.SetURIString("/thing/" + strconv.Itoa(seq))
+		// same method and path for every request command of a case: what tells them apart for the handlers'
+		// predicates is the id (class) only — a dispatcher may not remember "where commands like this go"
+		r.SetURIString("/thing?seq=" + strconv.Itoa(seq))
 		b, _ := json.Marshal(r)
 		return id, func(ctx context.Context, c *lime.ClientChannel) error { return c.SendRequestCommand(ctx, r) }, string(b)
 	default:
@@ -635,6 +637,19 @@ func muxExhaustive(e *Env) error {
 // muxServerCases: a handler error on a real Server makes the server finish the session; an
 // unmatched envelope is dropped and the session goes on.
 func muxServerCases(e *Env) error {
+	for _, pf := range []bool{true, false} {
+		e.Rep.Eval()
+		e.Rep.Count("builder-order case")
+		what, err := runBuilderOrderCase(pf)
+		if err != nil {
+			return err
+		}
+		if what != "" {
+			e.Rep.Violate("impl", "c20-server", what, map[string]interface{}{"server_case": "builder-order", "ping_first": pf})
+		} else {
+			e.Rep.Nontrivial(fmt.Sprintf("builder-order %v", pf))
+		}
+	}
 	trs := []string{"inproc"}
 	if e.Thorough() {
 		trs = []string{"inproc", "tcp", "ws"}
@@ -653,6 +668,73 @@ func muxServerCases(e *Env) error {
 		}
 	}
 	return nil
+}
+
+// runBuilderOrderCase: handlers registered through the ServerBuilder are tried in the order of the
+// builder calls, the built-in ping auto-reply included: a catch-all registered before AutoReplyPings
+// gets the ping (and the auto-reply does not run); registered after it, it gets everything but the ping.
+func runBuilderOrderCase(pingFirst bool) (string, error) {
+	var mu sync.Mutex
+	got := []string{}
+	catchAll := func(_ context.Context, c *lime.RequestCommand, s lime.Sender) error {
+		mu.Lock()
+		got = append(got, c.ID)
+		mu.Unlock()
+		return s.SendResponseCommand(context.Background(), c.FailureResponse(&lime.Reason{Code: 77, Description: "catch-all"}))
+	}
+	b := lime.NewServerBuilder().Name("postmaster").Domain("verif.local").Instance("s").
+		EnableGuestAuthentication().
+		Register(func(_ context.Context, cand lime.Node, _ *lime.ServerChannel) (lime.Node, error) {
+			return lime.Node{Identity: lime.Identity{Name: cand.Name, Domain: "verif.local"}, Instance: "x"}, nil
+		})
+	if pingFirst {
+		b.AutoReplyPings().RequestCommandsHandlerFunc(catchAll)
+	} else {
+		b.RequestCommandsHandlerFunc(catchAll).AutoReplyPings()
+	}
+	dial, stop, err := startServer(b, "inproc")
+	if err != nil {
+		return "", err
+	}
+	defer stop()
+	ct, err := dial()
+	if err != nil {
+		return "", err
+	}
+	cc := lime.NewClientChannel(ct, 4)
+	defer func() { go cc.Close() }()
+	ctx, cancel := context.WithTimeout(context.Background(), 10*time.Second)
+	defer cancel()
+	ses, err := cc.EstablishSession(ctx, lime.NoneCompressionSelector, lime.NoneEncryptionSelector,
+		lime.Identity{Name: "7b2f3a52-9f0d-4c0b-8d5e-0a4d4f1f2c11", Domain: "verif.local"}, lime.GuestAuthenticator, "i")
+	if err != nil || ses.State != lime.SessionStateEstablished {
+		return "", fmt.Errorf("c20 builder case: establish: %v", err)
+	}
+	statuses := []string{}
+	for _, x := range [][2]string{{"g1", "/thing"}, {"p1", "/ping"}, {"g2", "/thing"}} {
+		r := &lime.RequestCommand{}
+		r.ID = x[0]
+		r.Method = lime.CommandMethodGet
+		r.SetURIString(x[1])
+		pctx, pc := context.WithTimeout(ctx, 3*time.Second)
+		resp, err := cc.ProcessCommand(pctx, r)
+		pc()
+		if err != nil {
+			return fmt.Sprintf("request %s got no response: %v", x[0], err), nil
+		}
+		statuses = append(statuses, x[0]+":"+string(resp.Status))
+	}
+	mu.Lock()
+	defer mu.Unlock()
+	wantGot, wantSt := "g1,p1,g2", "g1:failure,p1:failure,g2:failure"
+	if pingFirst {
+		wantGot, wantSt = "g1,g2", "g1:failure,p1:success,g2:failure"
+	}
+	if strings.Join(got, ",") != wantGot || strings.Join(statuses, ",") != wantSt {
+		return fmt.Sprintf("registration order (ping auto-reply first=%v): the catch-all handler saw [%s], want [%s]; responses [%s], want [%s]",
+			pingFirst, strings.Join(got, ","), wantGot, strings.Join(statuses, ","), wantSt), nil
+	}
+	return "", nil
 }
 
 func runMuxServerCase(tr string, errk int) (string, error) {
